@@ -2,7 +2,7 @@ PROPS["C15"] = dict(
     jobs=[job("timer", "c15_timer", cases={Q: 4000, T: 400000})],
     rule="random histories (60 ops) over two real Timer objects on one CoreTiming: config/start/restart/event writes, "
          "ticks and CoreTiming::Skip(max) with max in {0,1,horizon,horizon-1,random}; twin instance replays each skip "
-         "as k single ticks; independent model checked after every op. distinct_nontrivial = distinct "
+         "as k single ticks; independent model checked after every op. The interrupt handler records the counter and mirror it sees (must read 0); one skip in three calls Timer::Skip directly with the horizon asked from the tick twin. distinct_nontrivial = distinct "
          "(op kind, modes, counter class 0/1/2/n/max, k==0?) keys that were executed and compared",
     floors={Q: {"op_skip": 1000, "skip_k0": 50, "irq_fired": 100}, T: {"op_skip": 100000, "skip_k0": 5000, "irq_fired": 10000}},
     ready=True,
